@@ -139,6 +139,11 @@ def read_bytes(
                 if not_zero:
                     off[0] = 1
                     length[0] -= 1
+                    if length[0] == 0 and len(off) > 1:
+                        # blocksize of one byte: the first block is empty and
+                        # would share its offset -- and with it its key
+                        # ``read-block-1-<token>`` -- with the second one
+                        del off[0], length[0]
                 offsets.append(off)
                 lengths.append(length)
 
